@@ -110,6 +110,8 @@ def run_explore(drv, job, liveness_fallback=False):
             if v["kind"] == "noquiesce":
                 res.add_violation(v, v["hist"])
         res.transitions += res0.transitions
+    for v in res.violations:
+        v.pop("_srcs", None)
     out = res.summary()
     out["violations"] = res.violations
     out["outcomes"] = list(res.outcomes.keys())[:50]
